@@ -77,13 +77,6 @@ Theorem C08_ref_visible :
 Proof. exact ref_visible. Qed.
 Print Assumptions C08_ref_visible.
 
-(* ...but one Referenz write is NOT the caller's on the pinned tree: `Speichere a in b` with a and b
-   bound to the same variable frees the target and then copies from it (every optimisation level) *)
-Theorem C08_ref_self_assign_refuted :
-  exists fuel p, run_copy fuel p = Er ESelfAssign.
-Proof. exact copy_self_assign_refuted. Qed.
-Print Assumptions C08_ref_self_assign_refuted.
-
 (* elision_sound : forall fuel p, run_elide fuel p = run_copy fuel p   is FALSE on the pinned tree *)
 Theorem C08_elision_sound_refuted :
   exists fuel p, run_elide fuel p <> run_copy fuel p.
